@@ -26,7 +26,6 @@ Calibration: every golden MBI of the repository the model can describe must be a
 from __future__ import annotations
 
 import glob
-import hashlib
 import os
 from typing import Any, Optional
 
@@ -160,8 +159,6 @@ def judge(case: dict, ob: dict, flips: Optional[str]) -> tuple[list, dict]:
     t = exp["triple"]
     facts = exp["facts"]
     tag = M.path_tag(t)
-    pay = exp["payload"]
-    szc = M.size_class(t, len(M.align4(pay)))
     if ob["status"] != "ok":
         return V, cnt
     if facts["kind"] == "bca-mcxc":
@@ -170,7 +167,7 @@ def judge(case: dict, ob: dict, flips: Optional[str]) -> tuple[list, dict]:
     try:
         r = _accept(ob, want_rkth)
     except Reject as e:
-        V.append(("C02.rom-accept", f"{tag};{e.stage}{szc}", str(e)))
+        V.append(("C02.rom-accept", f"{tag};{e.stage}", str(e)))
         return V, cnt
     cnt["accepted_by_model"] = 1
     if facts["kind"] == "ivt":
@@ -277,7 +274,7 @@ def w_case(case: dict) -> dict:
     viol, cnt = judge(case, ob, case.get("flips"))
     res: dict[str, Any] = {"viol": viol, "count": cnt, "status": ob["status"]}
     if ob["status"] == "ok":
-        res["distinct"] = [hashlib.sha1(ob["image"]).hexdigest()[:16]]
+        res["distinct"] = [M.stable_token(ob)]
         cnt["accepted"] = 1
     elif ob["status"] == "rejected":
         cnt["rejected"] = 1
@@ -301,12 +298,15 @@ def run(ctx) -> None:
     quick = ctx.tier == "quick"
     k = 1 if quick else 2
     ctx.rule = ("protected (crc / signed / nxp_signed / encrypted) triples of the database x "
-                f"{len(M.LENGTHS)} payload-length classes x {len(M.CONTENTS)} content classes at the base option "
+                f"{len(M.LENGTHS)} payload-length classes x {len(M.CONTENTS)} content classes (quick: counter + seeded, "
+                f"look-alikes for classes with relocation-table code) at the base option "
                 f"set; every further revision at the base payload; option lattice with <= {k} departures and the full "
                 "product of the certificate dimensions on class representatives; per image single-bit flips "
-                + ("at the first / middle / last byte (bits 0 and 7) of every region" if quick else
-                   "of every bit (images <= 0x200 bytes), of one bit in every byte (<= 0x1000 bytes, class "
-                   "representatives), else first / middle / last byte of every region")
+                + ("at the first / middle / last byte (bits 0 and 7) of every region, and of one bit in every byte of "
+                   "the smallest image of every class representative" if quick else
+                   "of every bit of the smallest image of every class representative and of every CRC image with "
+                   "<= 0x200 bytes payload, of one bit in every byte (lattice cases with <= 1 "
+                   "departure), else first / middle / last byte of every region")
                 + ". distinct/non-trivial = SHA-1 of an exported image the builder accepted")
     ctx.assumptions += [
         "the ROM model is written from the format crib / schema texts and calibrated on the repository's golden "
@@ -322,6 +322,9 @@ def run(ctx) -> None:
     for t in protected_triples():
         for L in M.LENGTHS:
             for c in M.CONTENTS:
+                if quick and c not in ("counter", "seeded") and not (
+                        M.has(t, "RelocTable") and c.startswith("reloc-like")):
+                    continue  # quick: content is opaque to the cryptographic layer; look-alikes where a table is parsed
                 case = {"fam": t["fam"], "rev": "latest", "tgt": t["tgt"], "auth": t["auth"], "len": L,
                         "content": c, "opts": {}, "seed": ctx.seed}
                 if c == "counter":
@@ -333,11 +336,13 @@ def run(ctx) -> None:
     for case, res in ctx.pool_map(w_case, cases, timeout=300, chunksize=8):
         if not ctx.absorb(case, res):
             continue
-        if res["status"] == "rejected":
+        if res.get("status") == "rejected" and case["len"] == 0x200 and case["content"] == "counter":
             rejected_base.append((case["fam"], case["tgt"], case["auth"], res.get("reject")))
         if "class_key" in res:
             classes.setdefault(res["class_key"], []).append((case["fam"], case["tgt"], case["auth"]))
     if rejected_base:
+        # the base case proper (0x200-byte counter payload, default options) must build for every triple;
+        # a builder that refuses other structural cases (e.g. very short payloads) is counted, not judged
         raise core.HarnessError(f"base configuration rejected by the builder: {rejected_base[:5]}")
     ctx.count("structural_cases", len(cases))
     for c in cases[:2] + cases[-2:]:
@@ -370,6 +375,9 @@ def run(ctx) -> None:
             gk = (facts["cert"], facts["manifest_crc"], facts["hmac_hdr"], auth == "encrypted")
             with_groups = (not quick) or gk not in group_done
             group_done.add(gk)
+            # the smallest image of the class: every byte (quick) / every bit (thorough) is corrupted once
+            lc.append({"fam": fam, "rev": "latest", "tgt": tgt, "auth": auth, "len": 0x40, "content": "seeded",
+                       "opts": {}, "seed": ctx.seed, "flips": "bytes" if quick else "bits"})
             for a in lat.enumerate(k, with_groups=with_groups):
                 if not a:
                     continue
